@@ -117,3 +117,137 @@ Example c15_example_tree :
   drop_cells [[(1, [11; 12]); (2, [13])]; [(11, [0; 1]); (12, [2]); (13, [3; 4])]]
   = [[(1, [11; 12]); (2, [13])]; [(11, []); (12, []); (13, [])]].
 Proof. vm_compute. reflexivity. Qed.
+
+(* ------------------------------------------------------------------------------------------------
+   The TEXT of the CSV file (Model/CsvText.v): what `DataFrame.to_csv(index=False,
+   float_format='%.4f')` writes for a table of string fields (Python 3.12 csv.writer, QUOTE_MINIMAL)
+   and what `pandas.read_csv(path, comment='#')` -- the call docs/output.md and the example
+   notebooks give -- makes of it (the C tokenizer, state by state).  A string is a list of code
+   points, ANY integers; a table a list of rows (the header line is the first row). *)
+From CTM Require Import Model.CsvText Proofs.CsvTextP.
+
+(* The reader undoes the writer, for every table of strings whatsoever except (well_shaped false):
+   - a field that contains a carriage return (13) but none of comma, double quote, line feed: the
+     writer leaves it unquoted and every reader takes the carriage return for a line end
+     (c15_csv_carriage_return_refuted);
+   - a row without any field (a DataFrame without columns), and a ONE-column row whose field
+     consists of blanks / tabs only (a blank line to the reader; the mapper's CSV has >= 3 columns).
+   Empty fields, leading / trailing blanks, commas, quotes, line feeds, '#', NUL, any code point
+   are covered. *)
+Theorem c15_csv_text_roundtrip : forall rows,
+  well_shaped false rows = true -> csv_parse false (csv_text rows) = Some rows.
+Proof. exact csv_roundtrip. Qed.
+Print Assumptions c15_csv_text_roundtrip.
+
+(* hence the file determines the table: two different well-shaped tables never give the same text *)
+Theorem c15_csv_text_injective : forall r1 r2,
+  well_shaped false r1 = true -> well_shaped false r2 = true -> csv_text r1 = csv_text r2 -> r1 = r2.
+Proof. exact csv_text_injective. Qed.
+Print Assumptions c15_csv_text_injective.
+
+(* The comment lines written before the header ('#' + body + line feed; the bodies hold the name of
+   the JSON file, json.dumps of the hierarchy, the version line: no line feed / carriage return)
+   are skipped by a reader told comment='#' and the table comes back -- provided no UNQUOTED field
+   contains '#' (well_shaped true = well_shaped false + that). *)
+Theorem c15_csv_comment_lines_safe : forall bodies rows,
+  forallb comment_ok bodies = true -> well_shaped true rows = true ->
+  csv_parse true (csv_file bodies rows) = Some rows.
+Proof. exact csv_comments_safe. Qed.
+Print Assumptions c15_csv_comment_lines_safe.
+
+(* ... and that proviso is necessary: the writer does not quote '#'.  A cell whose id starts with
+   '#' disappears from the table a user reads with comment='#' (finding) ... *)
+Theorem c15_csv_hash_cell_id_row_vanishes_refuted :
+  exists rows rows',
+    well_shaped false rows = true /\
+    csv_parse true (csv_text rows) = Some rows' /\ (length rows' < length rows)%nat.
+Proof. exact hash_row_vanishes. Qed.
+Print Assumptions c15_csv_hash_cell_id_row_vanishes_refuted.
+
+(* ... and a node name / alias containing '#' (97 35 98 = a#b) is cut at the '#' and the remaining
+   columns of that row are lost *)
+Theorem c15_csv_hash_in_name_truncates_row_refuted :
+  exists rows,
+    well_shaped false rows = true /\
+    csv_parse true (csv_text rows) = Some [[[105; 100]; [110]; [122]]; [[99]; [97]]].
+Proof. exact hash_field_truncated. Qed.
+Print Assumptions c15_csv_hash_in_name_truncates_row_refuted.
+
+(* a name containing a carriage return and nothing that triggers quoting (97 13 98) is written
+   unquoted; the reader (with or without comment handling) splits the row in two (finding) *)
+Theorem c15_csv_carriage_return_refuted :
+  exists rows,
+    row_ok false [[99]; [97; 13; 98]; [119]] = false /\
+    rows = [[[105; 100]; [110]; [122]]; [[99]; [97; 13; 98]; [119]]] /\
+    csv_parse false (csv_text rows) = Some [[[105; 100]; [110]; [122]]; [[99]; [97]]; [[98]; [119]]].
+Proof. exact cr_field_splits_row. Qed.
+Print Assumptions c15_csv_carriage_return_refuted.
+
+(* '%.4f' % x for the double x = m * 2^e given exactly (dyadic m e is that value as a fraction:
+   c15_dyadic_is_the_value).  fmt4k m e = the printed number in units of 1/10000. *)
+Theorem c15_dyadic_is_the_value : forall m e s,
+  0 <= s -> 0 <= e + s ->
+  0 < snd (dyadic m e) /\ fst (dyadic m e) * 2 ^ s = snd (dyadic m e) * (m * 2 ^ (e + s)).
+Proof. exact dyadic_value. Qed.
+Print Assumptions c15_dyadic_is_the_value.
+
+(* nearest: exact when x is a multiple of 1 (e >= 0); otherwise |x * 10^4 - k| <= 1/2, over Z *)
+Theorem c15_fmt4_nearest : forall m e,
+  (0 <= e -> fmt4k m e = m * 2 ^ e * 10000) /\
+  (e < 0 -> 2 * Z.abs (fmt4k m e * 2 ^ (- e) - 10000 * m) <= 2 ^ (- e)).
+Proof. exact fmt4k_nearest_both. Qed.
+Print Assumptions c15_fmt4_nearest.
+
+(* a tie of the EXACT value goes to the even neighbour *)
+Theorem c15_fmt4_ties_even : forall m e,
+  e < 0 -> 2 * Z.abs (fmt4k m e * 2 ^ (- e) - 10000 * m) = 2 ^ (- e) -> Z.even (fmt4k m e) = true.
+Proof. exact fmt4k_ties_even. Qed.
+Print Assumptions c15_fmt4_ties_even.
+
+(* x1 <= x2 (cross-multiplied) -> the printed numbers are in the same order *)
+Theorem c15_fmt4_monotone : forall m1 e1 m2 e2,
+  fst (dyadic m1 e1) * snd (dyadic m2 e2) <= fst (dyadic m2 e2) * snd (dyadic m1 e1) ->
+  fmt4k m1 e1 <= fmt4k m2 e2.
+Proof. exact fmt4k_mono. Qed.
+Print Assumptions c15_fmt4_monotone.
+
+(* 0 <= x <= 1 -> 0.0000 ... 1.0000: a probability never prints as more than 1 *)
+Theorem c15_fmt4_unit_interval : forall m e,
+  0 <= fst (dyadic m e) <= snd (dyadic m e) -> 0 <= fmt4k m e <= 10000.
+Proof. exact fmt4k_unit. Qed.
+Print Assumptions c15_fmt4_unit_interval.
+
+(* the printed text (digits, '.', exactly four digits) reads back as the number *)
+Theorem c15_fmt4_digits_roundtrip : forall m e,
+  0 <= m -> parse_fixed4 (fmt4_text false m e) = Some (fmt4k m e).
+Proof. exact fmt4_text_roundtrip. Qed.
+Print Assumptions c15_fmt4_digits_roundtrip.
+
+(* non-vacuity: a header and two rows with a comma, doubled quotes, a line feed, an empty field,
+   leading / trailing blanks, a carriage return inside a quoted field, non-ASCII, and (for the
+   reader with comment='#') a '#' inside a quoted field; three comment lines *)
+Definition ex_table : list (list str) :=
+  [ [[99; 101; 108; 108; 95; 105; 100]; [76; 95; 108; 97; 98; 101; 108]; [76; 95; 110; 97; 109; 101]];
+    [[99; 48]; [65; 44; 49]; [32; 115; 97; 105; 100; 32; 34; 113; 34; 10; 35; 120; 13; 32]];
+    [[233; 8364]; []; [32; 32]] ].
+Example c15_example_table_well_shaped : well_shaped true ex_table = true /\ well_shaped false ex_table = true.
+Proof. vm_compute. split; reflexivity. Qed.
+Example c15_example_table_text :
+  csv_text ex_table =
+    [99; 101; 108; 108; 95; 105; 100; 44; 76; 95; 108; 97; 98; 101; 108; 44; 76; 95; 110; 97; 109; 101; 10;
+     99; 48; 44; 34; 65; 44; 49; 34; 44; 34; 32; 115; 97; 105; 100; 32; 34; 34; 113; 34; 34; 10; 35; 120; 13; 32; 34; 10;
+     233; 8364; 44; 44; 32; 32; 10].
+Proof. vm_compute. reflexivity. Qed.
+Example c15_example_comments :
+  forallb comment_ok [[32; 109; 61; 120]; [32; 104; 61; 91; 93]] = true /\
+  csv_parse true (csv_file [[32; 109; 61; 120]; [32; 104; 61; 91; 93]] ex_table) = Some ex_table.
+Proof. vm_compute. split; reflexivity. Qed.
+(* 0.03125 = 1 * 2^-5 is an exact tie (312.5 -> 312, even); 0.09375 = 3 * 2^-5 (937.5 -> 938);
+   1 - 2^-53 prints as 1.0000; float32(0.1) = 13421773 * 2^-27 prints as 0.1000 *)
+Example c15_example_fmt4k :
+  fmt4k 1 (-5) = 312 /\ fmt4k 3 (-5) = 938 /\ fmt4k (2 ^ 53 - 1) (-53) = 10000 /\
+  fmt4k 13421773 (-27) = 1000 /\ fmt4k 3 1 = 60000 /\
+  fmt4_text false 1 (-5) = [48; 46; 48; 51; 49; 50] /\
+  fmt4_text true 3 2 = [45; 49; 50; 46; 48; 48; 48; 48] /\
+  (0 <= fst (dyadic (2 ^ 53 - 1) (-53)) <= snd (dyadic (2 ^ 53 - 1) (-53))).
+Proof. vm_compute. repeat split; try reflexivity; discriminate. Qed.
